@@ -58,12 +58,13 @@ def random_dag(rng, n, shape=None):
     if shape == "fan_out":
         return [[]] + [[0] for _ in range(1, n)]
     if shape == "fan_in":
-        return [[] for _ in range(n - 1)] + [list(range(n - 1))[-4:] if n > 5 else list(range(n - 1))]
+        # joins of any width (every root is a parent), sometimes only the last few
+        return [[] for _ in range(n - 1)] + [list(range(n - 1))[-4:] if (n > 5 and rng.random() < 0.5) else list(range(n - 1))]
     if shape == "diamond":
         if n < 4:
             return random_dag(rng, n, "chain")
         mid = list(range(1, n - 1))
-        return [[]] + [[0] for _ in mid] + [mid[-4:]]
+        return [[]] + [[0] for _ in mid] + [mid[-4:] if rng.random() < 0.5 else mid]
     if shape == "multi_root":
         roots = rng.randint(2, max(2, n // 2))
         out = [[] for _ in range(min(roots, n))]
@@ -88,7 +89,7 @@ def random_dag(rng, n, shape=None):
         return out
     out = [[]]
     for k in range(1, n):
-        m = rng.randint(0, min(4, k))
+        m = rng.randint(0, min(4, k)) if rng.random() < 0.9 else rng.randint(0, k)
         out.append(sorted(rng.sample(range(k), m)))
     return out
 
@@ -175,7 +176,11 @@ QUERY_PROTOTYPE = (15, "linear3", 35)
 
 def simple_pipeline(rng, pid, tps, nops=None, prio=None, shape=None, mode="safe", cpus_hint=4,
                     mem_ref=None, maxn=8, nseg_max=2, laws=LAWS):
-    nops = nops or rng.choice([1, 1, 2, 2, 3, 4, 5, 6])
+    if nops is None:
+        # mostly small; now and then wide or deep (joins with many parents, many roots, long chains)
+        nops = rng.choice([1, 1, 2, 2, 3, 4, 5, 6]) if rng.random() < 0.93 else rng.choice([9, 12, 17, 24])
+    if nops > 6 and nseg_max == 2 and rng.random() < 0.3:
+        nseg_max = 5
     parents = random_dag(rng, nops, shape)
     ops = []
     for k in range(nops):
